@@ -430,8 +430,10 @@ class ModuleFinder:
         return parent_path.name
 
 
-_re_pkgresources = re.compile(r"(?:__import__\([\"']pkg_resources[\"']\).declare_namespace\(__name__\))")
-_re_pkgutil = re.compile(r"(?:__path__ = __import__\([\"']pkgutil[\"']\).extend_path\(__path__, __name__\))")
+# All the documented spellings: `__import__("pkgutil").extend_path(...)`, `pkgutil.extend_path(...)` after `import pkgutil`,
+# `extend_path(...)` after `from pkgutil import extend_path`, and the same for `pkg_resources.declare_namespace`.
+_re_pkgresources = re.compile(r"\bdeclare_namespace\(\s*__name__\s*\)")
+_re_pkgutil = re.compile(r"__path__\s*=\s*(?:[\w.()\"']+\.)?extend_path\(\s*__path__\s*,\s*__name__\s*\)")
 _re_import_line = re.compile(r"^import[ \t]+\w+$")
 
 
